@@ -12,17 +12,17 @@ import (
 func init() { register("C06", "exploration", runC06) }
 
 func runC06(c *Check, rng *rand.Rand) {
-	c.Rule = "E2: random MGET/DEL/MSET key lists (1..2000 keys; duplicates, hash tags into few slots, empty/binary/CRLF keys and values, brace-hostile keys, random letter case) through the real client decoder, fragments compared with the reference per-slot split; E1: the same kind of requests over TCP, fragments as logged by the fake nodes; distinct = (kind, key count, distinct slots)"
+	c.Rule = "E2: random MGET/DEL/MSET key lists (1..2000 keys; duplicates, hash tags into few slots, empty/binary/CRLF keys and values, brace-hostile keys, random letter case) through the real client decoder, fragments compared with the reference per-slot split; decoder life-cycle monitor: histories of requests on successive connections (delivery in pieces, abandoned / invalid / oversized requests in between, every answered message returned to MsgPool and reused) judged the same way; E1: the same kind of requests over TCP, fragments as logged by the fake nodes; distinct = (kind, key count, distinct slots)"
 	c.Assumptions = []string{"fragment command names are compared case-insensitively; fragments must be canonical RESP"}
-	n := "60000"
+	n, life := "60000", "60000"
 	if c.Thorough() {
-		n = "3000000"
+		n, life = "3000000", "3000000"
 	}
-	if r := runE2(c, "", "c06", 40*time.Minute, "--n", n); r != nil {
+	if r := runE2(c, "", "c06", 40*time.Minute, "--n", n, "--life", life); r != nil {
 		c.DistinctN(r.Distinct)
 	}
 	if c.Thorough() {
-		runE2(c, "race", "c06", 40*time.Minute, "--n", "300000")
+		runE2(c, "race", "c06", 40*time.Minute, "--n", "300000", "--life", "200000")
 	}
 	c06wire(c, rng)
 	c06burst(c, rng)
